@@ -177,7 +177,12 @@ where
 
     // Prepare the default SolOut (wrapping user callback if provided)
     let n_states = y0.len();
-    let mut default_solout = DefaultSolOut::new(f, options.t_eval.clone(), options.dense_output, options.first_step, x0, n_states);
+    // The handler reports x0 + first_step as the first output only when that point lies inside the interval
+    let first_output_step = options
+        .first_step
+        .map(|h| h.abs())
+        .filter(|h| *h <= (xend - x0).abs());
+    let mut default_solout = DefaultSolOut::new(f, options.t_eval.clone(), options.dense_output, first_output_step, x0, n_states);
 
     // Dispatch by method
     let result = match options.method {
